@@ -83,6 +83,8 @@ def replay_kani(pid, res, work, log):
         f.write("// Structure: %s\n" % json.dumps(inst.params))
         f.write("// Replay: python3 /verif/bin/check.py %s --replay %s\n" % (pid, path))
         f.write("// module: %s target: %s\n" % (inst.module, inst.target))
+        if inst.unwind_is_violation:
+            f.write("// termination-claim: a native run that does not finish within 120 s reproduces the violation\n")
         f.write("// --- instance (generated) ---\n")
         f.write(inst.rust())
         f.write("// --- concrete values found by the solver ---\n")
@@ -118,7 +120,7 @@ def run_replay_file(pid, path, work, log):
     except ov.OverlayError as e:
         return False, "replay overlay: %s" % e, []
     os.makedirs(rgen)
-    for mname in ("patch", "patchpriv", "parser", "writer", "lines", "parallel", "common"):
+    for mname in ("patch", "patchpriv", "parser", "rej", "lines", "parallel", "common"):
         with open(os.path.join(rgen, "%s_inst.rs" % mname), "w") as f:
             if mname == module:
                 # stubs are a solver-side device: the native run uses the real functions
@@ -128,7 +130,12 @@ def run_replay_file(pid, path, work, log):
     write_kf_consts(rgen, pid)
     tdir = os.path.join(work, "t_replay")
     K.seed_target(tdir, "replay-" + target, False)
-    failed, txt = native_playback(rov, rgen, testname, target, tdir, os.path.join(work, "replay_%s.log" % testname))
+    term_claim = "// termination-claim:" in src
+    failed, txt = native_playback(rov, rgen, testname, target, tdir, os.path.join(work, "replay_%s.log" % testname),
+                                  timeout=(180 if term_claim else 900))
+    if term_claim and txt.startswith("TIMEOUT"):
+        log("  reproduced natively: the generated test does not terminate within the time limit")
+        return True, "does not terminate (stated line far behind the end of the file)", []
     tags = []
     pm = re.search(r"panicked at ([^\n]*)\n([^\n]*)", txt)
     msg = (pm.group(1) + " " + pm.group(2)) if pm else ""
